@@ -128,9 +128,18 @@ func (r *AofRotateReader) Seek(offset int64) error {
 }
 
 func (r *AofRotateReader) openFile(offset int64) error {
+	return r.openFileObserved(offset, false)
+}
+
+// pinned : the caller has already told the Open observer (which takes the reference on the
+// segment), see tryReadNextFile
+func (r *AofRotateReader) openFileObserved(offset int64, pinned bool) error {
 	filepath := aofFilePath(r.dir, offset)
 	file, err := os.OpenFile(filepath, os.O_RDONLY, 0777)
 	if err != nil {
+		if pinned {
+			(*r.observer.Load()).Close(offset)
+		}
 		return err
 	}
 
@@ -140,7 +149,9 @@ func (r *AofRotateReader) openFile(offset int64) error {
 	r.left = offset
 	r.right = offset
 	r.pos = headerSize
-	(*r.observer.Load()).Open(offset)
+	if !pinned {
+		(*r.observer.Load()).Open(offset)
+	}
 
 	if r.verifyCrc {
 		err := r.isCorrupted()
@@ -234,11 +245,14 @@ func (r *AofRotateReader) tryReadNextFile(offset int64) error {
 		}
 		return err
 	}
+	// take the reference on the next segment before releasing the one on the current segment,
+	// otherwise the collector may remove the next segment in between
+	(*r.observer.Load()).Open(offset)
 	err = r.closeAof()
 	if err != nil {
 		r.logger.Errorf("close error : %v", err)
 	}
-	return r.openFile(offset)
+	return r.openFileObserved(offset, true)
 }
 
 // @TODO not thread safe
